@@ -104,8 +104,19 @@ func (e *Enum) Values() ([]Value, error) {
 	if err := e.compile(); err != nil {
 		return nil, err
 	}
-	// A copy: the list belongs to the rule, the caller may change what it gets.
-	return append([]Value(nil), e.values...), nil
+	// A copy: the list and the bytes of its values belong to the rule (the bytes
+	// are a window into the text of the rule), the caller may change what it gets.
+	var vv []Value
+	if len(e.values) != 0 {
+		vv = make([]Value, len(e.values))
+	}
+	for i, v := range e.values {
+		vv[i] = v
+		if !v.Value.IsNil() {
+			vv[i].Value = bytes.NewBytes(append([]byte{}, v.Value.Data()...))
+		}
+	}
+	return vv, nil
 }
 
 func (e *Enum) compile() error {
